@@ -5,6 +5,13 @@
 //! writer's change is detected and the stale write becomes a hub conflict-copy
 //! instead of a silent lost update (docs/specifications/distributed-sync.md).
 
+#[cfg(paiml_copia_verif)]
+#[allow(unused_imports)]
+use copia_simworld::shim::{fs2, std, tokio};
+#[cfg(paiml_copia_verif)]
+#[allow(unused_imports)]
+use copia_simworld::{eprintln, println};
+
 use super::meta::discover_local_fingerprints;
 use super::reconcile::Fingerprint;
 use super::wire::{read_frame, write_frame, Hash, Request, Response, VERSION};
